@@ -206,7 +206,7 @@ func c3RunTwo(t *testing.T, w *c3Two, models string) (string, string) {
 					classB = fmt.Sprintf("panic:%v", r)
 				}
 			}()
-			classB = c3Classify(PullModel(ctxB, c3ModelName(w.nameB), &registryOptions{}, func(r api.ProgressResponse) {
+			classB = c3ClassifyTwo(w.x, PullModel(ctxB, c3ModelName(w.nameB), &registryOptions{}, func(r api.ProgressResponse) {
 				if r.Status == x12 {
 					joinOnce.Do(func() {
 						if w.mode == "duringCancelB" {
@@ -241,7 +241,7 @@ func c3RunTwo(t *testing.T, w *c3Two, models string) (string, string) {
 				}
 			}()
 			first := true
-			classA = c3Classify(PullModel(ctxA, c3ModelName(c.name), &registryOptions{}, func(r api.ProgressResponse) {
+			classA = c3ClassifyTwo(w.x, PullModel(ctxA, c3ModelName(c.name), &registryOptions{}, func(r api.ProgressResponse) {
 				if w.mode == "atVerify" && r.Status == "verifying sha256 digest" && first {
 					first = false
 					fire()
@@ -286,13 +286,6 @@ func c3TwoCase(t *testing.T, out *zzverif.Out, w *c3Two) {
 	out.Count("two_cases")
 	out.Count("two_mode_" + w.mode)
 	classA, classB := c3RunTwo(t, w, models)
-	// both pulls verify x at the same time: the slower one may find the file already removed by the faster one
-	if classA == "err:digest-mismatch" && classB == "err:notfound" {
-		classB = "err:digest-mismatch"
-	}
-	if classB == "err:digest-mismatch" && classA == "err:notfound" {
-		classA = "err:digest-mismatch"
-	}
 	disk := c3ReadDisk(models)
 	out.Case(line, fmt.Sprintf("%s %s %s", classA, classB, disk.show()))
 	out.Count("two_outcome_A_" + classA)
@@ -395,4 +388,13 @@ func c3TwoCases(r *zzverif.Rng, extra int, emit func(*c3Two)) {
 	}
 	_ = bytes.MinRead
 	_ = strconv.Itoa
+}
+
+// c3ClassifyTwo: both pulls verify the shared blob x at the same time; the slower one may find the file already
+// removed by the faster one (verifyBlob's os.Open fails): that is the same verdict, "x did not verify".
+func c3ClassifyTwo(x string, err error) string {
+	if err != nil && os.IsNotExist(err) && strings.Contains(err.Error(), "sha256-"+x) {
+		return "err:digest-mismatch"
+	}
+	return c3Classify(err)
 }
